@@ -1126,6 +1126,12 @@ class Conv:
             # call through an expression / a local bound to a value
             return t.atom('callexpr', tuple([self.expr(n.func)] + args + kwv),
                           extra=kwn or None)
+        if recv is not None and name == 'searchsorted' and len(args) >= 1:
+            # a.searchsorted(v, ...) is np.searchsorted(a, v, ...)
+            d0_ = dotted(recv)
+            if not (d0_ is not None and d0_.split('.')[0] in NUMERIC_MODULES):
+                return t.atom('call', tuple([recv_rf if recv_rf is not None else self.expr(recv)] + args + kwv),
+                              extra=('fn:searchsorted',) + kwn)
         if recv is not None and name == 'dot' and len(args) == 1 and not kw:
             # a.dot(b) is np.dot(a, b)
             d0_ = dotted(recv)
@@ -1146,6 +1152,17 @@ class Conv:
             if name not in REDUCERS and name not in ERASED_CALLS:
                 return t.atom('mcall', tuple(args + kwv),
                               extra=('fn:' + name,) + kwn)
+        if name == 'dict' and recv is None and not args and kw and isinstance(n.func, ast.Name):
+            # dict(a=x, b=y) is {'a': x, 'b': y}
+            flat = []
+            for k_ in n.keywords:
+                if k_.arg is None:
+                    flat = None
+                    break
+                flat.append(t.atom('const', (repr(k_.arg),)))
+                flat.append(self.expr(k_.value))
+            if flat:
+                return t.atom('dict', tuple(flat))
         if name == '_guard' and len(args) == 3:
             return t.atom('guard', tuple(args))
         if name == '_alloc' and len(args) == 1:
